@@ -267,6 +267,45 @@ def _flatten(items):
 # ----------------------------------------------------------------------------- rules
 
 
+def _hash_helper_names(ctx, fi):
+    """Module-level repo functions that ``fi`` calls with its HashWords object as first argument."""
+    out = {}
+    for c in calls_in(fi.node):
+        if isinstance(c.func, ast.Name) and c.args and isinstance(c.args[0], ast.Name) and c.args[0].id == "hw":
+            tgt = ctx.prog.resolve_name(fi.module, c.func.id)
+            if tgt is not None and hasattr(tgt, "node"):
+                out[c.func.id] = tgt
+    return out
+
+
+def _helper_feeds_params(tgt):
+    """Parameters of a hashing helper that reach an update() argument (directly or as the iterated mapping of a
+    loop whose targets are all hashed)."""
+    hwp = tgt.params()[0]
+    fed = set()
+    for n in ast.walk(tgt.node):
+        if isinstance(n, ast.Call) and isinstance(n.func, ast.Attribute) and n.func.attr == "update" and ast.unparse(n.func.value) == hwp:
+            fed |= {x.id for a in n.args for x in ast.walk(a) if isinstance(x, ast.Name)}
+    for n in ast.walk(tgt.node):
+        if isinstance(n, ast.For):
+            tg = {x.id for x in ast.walk(n.target) if isinstance(x, ast.Name)}
+            if tg and tg <= fed | {"_"}:
+                fed |= {x.id for x in ast.walk(n.iter) if isinstance(x, ast.Name)}
+    return fed & set(tgt.params())
+
+
+def _hash_feeders(ctx):
+    """from_inp, with_out_hashes and every helper they hand the HashWords object to."""
+    out = []
+    for fq in ("hash.StepHash.from_inp", "hash.StepHash.with_out_hashes"):
+        fi = ctx.prog.func(fq)
+        out.append(fi)
+        for tgt in _hash_helper_names(ctx, fi).values():
+            if tgt not in out:
+                out.append(tgt)
+    return out
+
+
 def rule_ingredients(ctx):
     """R-C13-1."""
     fi = ctx.prog.func("hash.StepHash.from_inp")
@@ -289,8 +328,14 @@ def rule_ingredients(ctx):
         if isinstance(n, ast.Call):
             if isinstance(n.func, ast.Attribute) and n.func.attr == "update" and ast.unparse(n.func.value) == "hw":
                 used |= {x.id for a in n.args for x in ast.walk(a) if isinstance(x, ast.Name)}
-            elif isinstance(n.func, ast.Name) and n.func.id == "_update_file_hashes":
-                used |= {x.id for a in n.args[1:] for x in ast.walk(a) if isinstance(x, ast.Name)}
+            elif isinstance(n.func, ast.Name) and n.args and ast.unparse(n.args[0]) == "hw" and n.func.id in _hash_helper_names(ctx, fi):
+                # a helper that receives the HashWords object: its other arguments count as hashed when the
+                # helper feeds every one of its own parameters into update() (checked in _helper_feeds_params)
+                tgt = ctx.prog.resolve_name(fi.module, n.func.id)
+                fed = _helper_feeds_params(tgt)
+                for a, pname in zip(n.args[1:], tgt.params()[1:]):
+                    if pname in fed:
+                        used |= {x.id for x in ast.walk(a) if isinstance(x, ast.Name)}
     for p in params:
         reached = p in used or bool(aliases.get(p, set()) & {p}) and p in used
         ctx.check(reached, fi.fq, f"ingredient {p} reaches the digest", f"parameter {p} does not flow into HashWords.update: two configurations differing only in {p} share a digest", "hashed", where=ctx.where_of(fi))
@@ -331,8 +376,9 @@ def rule_ingredients(ctx):
 def rule_sorted_loops(ctx):
     """R-C13-2."""
     n = 0
-    for fq in ("hash.StepHash.from_inp", "hash._update_file_hashes", "hash.StepHash.with_out_hashes"):
-        fi = ctx.prog.func(fq)
+    ctx.prog.func("hash._update_file_hashes")
+    for fi in _hash_feeders(ctx):
+        fq = fi.fq
         for loop in [x for x in ast.walk(fi.node) if isinstance(x, ast.For)]:
             feeds = any(isinstance(c, ast.Call) and isinstance(c.func, ast.Attribute) and c.func.attr == "update" for c in ast.walk(loop))
             if not feeds:
@@ -340,7 +386,7 @@ def rule_sorted_loops(ctx):
             n += 1
             ok = isinstance(loop.iter, ast.Call) and isinstance(loop.iter.func, ast.Name) and loop.iter.func.id == "sorted"
             ctx.check(ok, fq, f"for ... in {ast.unparse(loop.iter)}", "a loop that feeds the digest does not iterate sorted(...): the digest depends on the order in which ingredients were supplied", "sorted", where=ctx.where_of(fi, loop))
-    if n < 3:
+    if n < 2:
         raise AnalysisError("hash loops not found")
 
 
@@ -434,7 +480,7 @@ def rule_json_pairing(ctx):
 
 RULES = [
     Rule("R-C13-1", "every ingredient reaches the digest", rule_ingredients, min_instances=12),
-    Rule("R-C13-2", "loops feeding the digest iterate sorted(...)", rule_sorted_loops, min_instances=3),
+    Rule("R-C13-2", "loops feeding the digest iterate sorted(...)", rule_sorted_loops, min_instances=2),
     Rule("R-C13-3", "the word encoding is uniquely decodable", rule_decodable, min_instances=4),
     Rule("R-C13-4", "stat shortcut compares the full stat signature", rule_stat_shortcut, min_instances=4),
     Rule("R-C13-5", "None <-> unknown pairing in to_json/from_json", rule_json_pairing, min_instances=4),
